@@ -108,3 +108,17 @@ Theorem shutdown_return_enabled_after_close :
     shut s = true -> (find_a j (sds s) = Some SdWaiting \/ find_a j (sds s) = Some SdExpired) ->
     exists s', step s (SdReturn j ResNil) = Some s' /\ find_a j (sds s') = Some (SdDone ResNil).
 Proof. exact shutdown_return_enabled. Qed.
+
+(* a start that fails in serveUDP before its loop (generic PacketConn, decorated
+   Reader without ReadPacketConn) leaves the server unstarted: a Shutdown call
+   gets the not-started error at once, a new start call succeeds *)
+Theorem failed_start_leaves_unstarted :
+  forall (s s' : state) (j i : nat),
+    step s SFailStart = Some s' ->
+    ph s' = Fresh /\ serve s' = SNone /\ shut s' = shut s /\ workers s' = workers s /\
+    (find_a j (sds s') = Some SdPending ->
+     exists s1 s2, step s' (SdAtomic j) = Some s1 /\ step s1 (SdReturn j ResNotStarted) = Some s2 /\
+                   find_a j (sds s2) = Some (SdDone ResNotStarted)) /\
+    (find_a i (sts s') = Some StPending ->
+     exists s1, step s' (StAtomic i) = Some s1 /\ ph s1 = Running /\ serve s1 = SInit).
+Proof. exact failed_start_unstarted. Qed.
